@@ -23,7 +23,7 @@ KERNEL_PREFIX = "glaredb_core::functions::"
 OPS = r"<(?P<ty>[iu](?:8|16|32|64|128)) as std::ops::(?P<op>Add|Sub|Mul|Div|Rem|Neg|AddAssign|SubAssign|MulAssign|DivAssign|RemAssign|Shl|Shr)(?:<[^>]*>)?>::"
 RAW_METHODS = re.compile(r"core::num::<impl (?P<ty>[iu](?:8|16|32|64|128))>::(?P<m>wrapping_\w+|overflowing_\w+|pow|abs|unchecked_\w+|rem_euclid|div_euclid|isqrt)$")
 CHECKED = re.compile(r"(?:core::num::<impl (?P<ty>[iu](?:8|16|32|64|128))>|<(?P<ty2>[iu](?:8|16|32|64|128)) as num_traits::[\w:]*Checked\w+>)::(?P<m>checked_\w+)$")
-NT_RAW = re.compile(r"<(?P<ty>[iu](?:8|16|32|64|128)) as num_traits::[\w:]*(?P<m>Wrapping\w+|Overflowing\w+|Pow|Signed)>::(?P<f>\w+)$")
+NT_RAW = re.compile(r"<(?P<ty>[iu](?:8|16|32|64|128)) as num_traits::[\w:]*(?P<m>Wrapping\w+|Overflowing\w+|Pow(?:<[^>]*>)?|Signed|PrimInt)>::(?P<f>\w+)$")
 DISCARD = ("::unwrap_or_default", "::unwrap_or", "::unwrap", "::expect", "::unwrap_unchecked", "::unwrap_or_else")
 
 
